@@ -108,6 +108,17 @@ var bigArrKit = bigKit[[2]int]{
 }
 
 func RunBig(c BigCase) pbt.Outcome {
+	keptStrings = keptStrings[:0]
+	out := runBigElem(c)
+	if out.Violation == "" {
+		if msg := keptIntact(); msg != "" {
+			return pbt.Fail("%s", msg)
+		}
+	}
+	return out
+}
+
+func runBigElem(c BigCase) pbt.Outcome {
 	switch c.Elem {
 	case 1:
 		return runBig(c, bigStrKit)
@@ -213,6 +224,7 @@ func (r bigRunner[T]) verify(what string, s sets.Set[T], m []bool) string {
 // (integers, "m<integer>", "[<integer> <integer>]").
 func (r bigRunner[T]) checkString(what string, s sets.Set[T], m []bool) string {
 	got := s.String()
+	keepString(what, got)
 	left := map[string]int{}
 	lens := map[int]bool{}
 	n := 0
@@ -836,6 +848,30 @@ func bigCases(shard, shards int, tier string, yield func(BigCase) bool) {
 			}
 		}
 	}
+	// very large sets (fast paths that only start at 2^15 or 2^16 members, chunked or parallel helpers): a few cases per operation
+	for hi, n := range []int{32771, 65537, 70001, 131075} {
+		if !thorough && hi >= 2 {
+			break
+		}
+		for oi, op := range []string{"intersect", "setdiff", "symdiff", "union", "addset", "removeset", "unary"} {
+			for pi, p := range bigPairs {
+				if !thorough && (pi+oi+hi)%2 == 1 {
+					continue
+				}
+				sh := bigShapes(n)[[]int{0, 7, 2, 11}[(pi+oi)%4]]
+				c := BigCase{Elem: (oi + pi) % 3, Op: op,
+					A: BigOperand{Impl: p[0], Ctor: bigCtors[(oi+pi)%4], Lay: bigLays[(oi+hi)%2], Lo: 0, N: sh[0]},
+					B: BigOperand{Impl: p[1], Ctor: "adds", Lay: bigLays[pi%2], Lo: sh[0] - sh[2], N: sh[1]}}
+				if sh[0] < n { // the receiver is the large one
+					c.A.N, c.B.N = sh[1], sh[0]
+					c.B.Lo = sh[1] - sh[2]
+				}
+				if !emit(c) {
+					return
+				}
+			}
+		}
+	}
 	// constructors fed with very many duplicates: few members, inputs of 10^4..10^5 values
 	for _, impl := range []string{"maps", "sync2"} {
 		for _, ctor := range []string{"slice", "values"} {
@@ -864,6 +900,7 @@ func bigCases(shard, shards int, tier string, yield func(BigCase) bool) {
 var specBig = pbt.Register(&pbt.Spec[BigCase]{
 	Property: "C03", Name: "C03.big",
 	Rule: "enumerated: for every n in {2^k-1, 2^k, 2^k+1 : k = 5..12} + {100, 1000, 5000} (thorough: k up to 16, also 1.5*2^k-1..+1, 10^4, 5*10^4, 10^5): " +
+		"plus n in {32771, 65537} (thorough: also 70001, 131075) for every operation x half of (thorough: all) the pairings; " +
 		"(unary) on {maps.Set, sync2.Set} x {plain, observed once, holes = built with n/2+1 extra members that are removed after an observation, expunged = holes + the last " +
 		"n/8+1 members added after the removals} x a constructor of {Adds, NewSetFromSlice, NewSetFromKeys, NewSetFromValues; inputs holding every value 2..4 times} (thorough: " +
 		"every constructor): Len, Slice (then overwritten by the caller), Range to the end and with stops at calls 1, 2, n/2, n-1, n, n+1, String (every member's rendering exactly " +
